@@ -20,11 +20,10 @@ t0 = time.time()
 def test(spec):
     for l in spec["labels"]: labels[l] += 1
     try:
-        res = build.run(spec)
         tally["ok"] += 1
         try:
-            oracles.check_overflow(res)
-            oracles.check_finite_inputs(res)
+            from vlib import simcase
+            b, res = simcase.run_spec(spec)
             oracles.conservation(res)
             oracles.sign_and_overdraw(res)
         except runner.Discard as d:
